@@ -1182,6 +1182,15 @@ func (e *Env) call(x *ECall) *SV {
 	case "indexOf":
 		c.uses["str"] = true
 		return e.intSV("(str.indexof " + arg(0).S + " " + arg(1).S + " 0)")
+	case "chanclosed":
+		// "the channel had been closed before this call started" (closing is irreversible, so it is
+		// closed at every point of the call); uninterpreted, constrained only by the select rule
+		v := arg(0)
+		if _, ok := v.T.Underlying().(*types.Chan); !ok {
+			specFail("chanclosed: argument is not a channel")
+		}
+		c.declareFun("chan.closed", []string{"Int"}, "Bool")
+		return e.boolSV("(chan.closed " + v.S + ")")
 	case "isnil":
 		v := arg(0)
 		switch v.T.Underlying().(type) {
